@@ -58,6 +58,14 @@ static void check_termination(unsigned long k)
 	}
 }
 
+extern void verif_termination_state(uint64_t *lps_to_end_p, simtime_t *max_t_p, unsigned *thr_to_end_p);
+static void dump_time(double t)
+{
+	if(t == SIMTIME_MAX) fprintf(lpstate_f, "MAX");
+	else if(t < 0) fprintf(lpstate_f, "-1");
+	else fprintf(lpstate_f, "%" PRIu64, app_time_to_ticks(t));
+}
+
 static void dump_state(unsigned long k)
 {
 	if(!lpstate_f)
@@ -89,6 +97,17 @@ static void dump_state(unsigned long k)
 		else
 			fprintf(lpstate_f, " %" PRIu64 "\n", app_time_to_ticks(lp->p.bound));
 	}
+	/* the termination accounting (TW/WorkerTerm.v driving TW/Term.v): lps_to_end, max_t, every LP's termination time */
+	uint64_t lte; double mt; unsigned thr;
+	verif_termination_state(&lte, &mt, &thr);
+	fprintf(lpstate_f, "M %" PRIu64 " ", lte);
+	dump_time(mt);
+	fprintf(lpstate_f, " |");
+	for(uint64_t i = 0; i < app_prog.lps; ++i) {
+		fputc(' ', lpstate_f);
+		dump_time(lps[i].termination_t);
+	}
+	fputc('\n', lpstate_f);
 }
 
 int main(int argc, char **argv)
